@@ -358,6 +358,8 @@ func coalesceMain(args []string) error {
 		return coalesceRand(args[1:])
 	case "conc":
 		return coalesceConc(args[1:])
+	case "enum":
+		return coalesceEnum(args[1:])
 	}
 	return fmt.Errorf("coalesce: unknown mode %q", args[0])
 }
